@@ -2,7 +2,7 @@
 From Coq Require Import Sorting.Permutation.
 From CKC Require Import Base.Prelude Base.Reflect Base.SortN Spec.Layout.
 From CKC Require Import Model.Card Model.Hands Model.Two.
-From CKC Require Import Proofs.CardFacts Proofs.SortFacts Proofs.FiveFacts Proofs.ShapeFacts.
+From CKC Require Import Proofs.CardBase Proofs.AccChen Proofs.SortFacts Proofs.FiveFacts Proofs.ShapeFacts.
 Open Scope N_scope.
 
 (* ============================================================================================ *)
@@ -221,7 +221,5 @@ Lemma points_ok :
   = [2; 3; 4; 5; 6; 7; 8; 9; 10; 12; 14; 16; 20].
 Proof.
   split; [|split; vm_compute; reflexivity].
-  intros r s Hr Hs. pose proof (acc_ok_all r s Hr Hs) as H. unfold acc_ok in H. cbv zeta in H.
-  apply andb_true_iff in H. destruct H as [H _]. apply andb_true_iff in H. destruct H as [H _].
-  apply andb_true_iff in H. destruct H as [_ H]. apply N.eqb_eq. exact H.
+  intros r s Hr Hs. exact (acc_chen r s Hr Hs).
 Qed.
